@@ -1,865 +1,54 @@
 /-
 C05  API-visible document state follows a simple reference model.
-Theorems over the document state machine Model/Doc.lean (also the basis of C04/C06).
-`theorem` = counted property theorem, `private theorem` = helper lemma.
+Property theorems over the document state machine (Model/Doc.lean; vocabulary in Model/DocSpec.lean;
+proofs in Lemmas/Doc.lean).  Every `theorem` here is a counted obligation.
 -/
-import EzdxfVerif.Model.Doc
+import EzdxfVerif.Lemmas.Doc
 
 namespace EzdxfVerif.Props.C05
 open EzdxfVerif.Doc
 
-/-- a request the API rejects leaves the document unchanged -/
+/-- a request the API rejects leaves the document unchanged (all 19 operations) -/
 theorem rejected_unchanged (s : State) (op : Op) (e : Err) (h : (step s op).2 = .err e) :
-    (step s op).1 = s := by
-  cases op <;> simp only [step, newEnt, addExisting, renameBlock, setActive] at h ⊢ <;>
-    (repeat' split at h) <;> (try (repeat' split)) <;> simp_all
+    (step s op).1 = s := Doc.rejected_unchanged s op e h
 
-def hs (s : State) : List Nat := s.ents.map (·.h)
-def allH (sp : List (Nat × List Nat)) : List Nat := (sp.map (·.2)).flatten
-def keys (sp : List (Nat × List Nat)) : List Nat := sp.map (·.1)
+/-- a step either leaves the handle history alone or appends ONE handle that lies at or above the
+    old generator value and below the new one; the generator never decreases -/
+theorem step_grow (s : State) (op : Op) : Grow s (step s op).1 := Doc.step_grow s op
 
-private theorem allH_cons (p : Nat × List Nat) (r : List (Nat × List Nat)) : allH (p :: r) = p.2 ++ allH r := by
-  simp [allH]
+/-- every entity has one unique, never reused handle: for every history, all handles ever issued
+    (`ents` is a monotone history, destroyed and purged entities included) are pairwise distinct
+    and below the handle generator -/
+theorem handles_never_reused (s : State) (ops : List Op) (h : HInv s) : HInv (run s ops) :=
+  Doc.handles_never_reused s ops h
 
-/-- replacing one space by a sublist of itself gives a sublist of all handles -/
-private theorem allH_setSpace_sublist (sp : List (Nat × List Nat)) (k : Nat) (f : List Nat → List Nat)
-    (hf : ∀ l, (f l).Sublist l) : (allH (setSpace sp k f)).Sublist (allH sp) := by
-  induction sp with
-  | nil => simp [setSpace, allH]
-  | cons p r ih =>
-    simp only [setSpace, List.map_cons] at ih ⊢
-    rw [allH_cons, allH_cons]
-    split
-    · exact List.Sublist.append (hf _) ih
-    · exact List.Sublist.append (List.Sublist.refl _) ih
+/-- one step preserves the structural invariant (unique block-record keys below the generator; every
+    handle at most once over ALL entity spaces; spaces hold only created entities), for
+    `layout.add_entity` under its documented caller obligation `OpOk` -/
+theorem step_inv (s : State) (op : Op) (h : DocInv s) (hok : OpOk s op) : DocInv (step s op).1 :=
+  Doc.step_Inv s op h hok
 
-private theorem allH_mapFilter_sublist (sp : List (Nat × List Nat)) (q : Nat → Bool) :
-    (allH (sp.map (fun p => (p.1, p.2.filter q)))).Sublist (allH sp) := by
-  induction sp with
-  | nil => simp [allH]
-  | cons p r ih =>
-    simp only [List.map_cons]
-    rw [allH_cons, allH_cons]
-    exact List.Sublist.append List.filter_sublist ih
+/-- at every step of any history: at most one owner, exactly once -/
+theorem inv_reachable (s : State) (ops : List Op) (h : DocInv s) (hok : HistOk s ops) :
+    DocInv (run s ops) := Doc.inv_reachable s ops h hok
 
-private theorem allH_filter_sublist (sp : List (Nat × List Nat)) (q : Nat × List Nat → Bool) :
-    (allH (sp.filter q)).Sublist (allH sp) := by
-  induction sp with
-  | nil => simp [allH]
-  | cons p r ih =>
-    simp only [List.filter_cons]
-    split
-    · rw [allH_cons, allH_cons]; exact List.Sublist.append (List.Sublist.refl _) ih
-    · rw [allH_cons]; exact List.Sublist.trans ih (List.sublist_append_right _ _)
-
-private theorem keys_setSpace (sp : List (Nat × List Nat)) (k : Nat) (f : List Nat → List Nat) :
-    keys (setSpace sp k f) = keys sp := by
-  induction sp with
-  | nil => rfl
-  | cons p r ih =>
-    simp only [setSpace, keys, List.map_cons] at ih ⊢
-    rw [ih]; congr 1; split <;> rfl
-
-/-- appending a handle that occurs nowhere to the space of key `k` keeps all handles distinct -/
-private theorem allH_append_nodup (sp : List (Nat × List Nat)) (k h : Nat) (hk : (keys sp).Nodup)
-    (hn : (allH sp).Nodup) (hh : h ∉ allH sp) : (allH (setSpace sp k (· ++ [h]))).Nodup := by
-  induction sp with
-  | nil => simp [setSpace, allH]
-  | cons p r ih =>
-    simp only [keys, List.map_cons, List.nodup_cons] at hk
-    rw [allH_cons] at hn hh
-    have hn' := List.nodup_append.mp hn
-    simp only [List.mem_append, not_or] at hh
-    simp only [setSpace, List.map_cons]
-    rw [allH_cons]
-    split
-    · rename_i hpk
-      -- the other spaces are untouched because the key is unique
-      have hrest : List.map (fun q : Nat × List Nat => if q.1 = k then (q.1, q.2 ++ [h]) else q) r = r := by
-        rw [← List.map_id r, List.map_map]
-        apply List.map_congr_left
-        intro q hq
-        simp only [Function.comp_def, id]
-        split
-        · rename_i hqk
-          exfalso; apply hk.1
-          simp only [List.mem_map]
-          exact ⟨q, hq, by rw [hqk, hpk]⟩
-        · rfl
-      rw [hrest]
-      simp only
-      rw [List.append_assoc]
-      refine List.nodup_append.mpr ⟨hn'.1, ?_, ?_⟩
-      · simp only [List.singleton_append, List.nodup_cons]
-        exact ⟨hh.2, hn'.2.1⟩
-      · intro a ha b hb
-        simp only [List.singleton_append, List.mem_cons] at hb
-        rcases hb with rfl | hb
-        · intro hab; subst hab; exact hh.1 ha
-        · exact hn'.2.2 a ha b hb
-    · have ih' := ih hk.2 hn'.2.1 hh.2
-      simp only [setSpace] at ih'
-      refine List.nodup_append.mpr ⟨hn'.1, ih', ?_⟩
-      intro a ha b hb
-      have hsub : ∀ x, x ∈ allH (List.map (fun q : Nat × List Nat => if q.1 = k then (q.1, q.2 ++ [h]) else q) r) →
-          x ∈ allH r ∨ x = h := by
-        intro x hx
-        clear ih ih' hn hn' hk hh ha hb
-        induction r with
-        | nil => simp [allH] at hx
-        | cons q t iht =>
-          simp only [List.map_cons] at hx
-          rw [allH_cons] at hx
-          rw [allH_cons]
-          simp only [List.mem_append] at hx ⊢
-          rcases hx with hx | hx
-          · split at hx
-            · simp only [List.mem_append, List.mem_singleton] at hx
-              rcases hx with hx | hx
-              · exact Or.inl (Or.inl hx)
-              · exact Or.inr hx
-            · exact Or.inl (Or.inl hx)
-          · rcases iht hx with h1 | h1
-            · exact Or.inl (Or.inr h1)
-            · exact Or.inr h1
-      rcases hsub b hb with hb' | rfl
-      · exact hn'.2.2 a ha b hb'
-      · intro hab; subst hab; exact hh.1 ha
-
-def SInv (sp : List (Nat × List Nat)) (H : List Nat) (n : Nat) : Prop :=
-  (keys sp).Nodup ∧ (∀ k ∈ keys sp, k < n) ∧ (allH sp).Nodup ∧ (∀ h ∈ allH sp, h ∈ H)
-
-private theorem SInv.mono {sp H H' n n'} (h : SInv sp H n) (hn : n ≤ n') (hH : ∀ x ∈ H, x ∈ H') : SInv sp H' n' :=
-  ⟨h.1, fun k hk => Nat.lt_of_lt_of_le (h.2.1 k hk) hn, h.2.2.1, fun x hx => hH x (h.2.2.2 x hx)⟩
-
-private theorem SInv.sub {sp sp' H n} (h : SInv sp H n) (hk : (keys sp').Sublist (keys sp))
-    (ha : (allH sp').Sublist (allH sp)) : SInv sp' H n :=
-  ⟨h.1.sublist hk, fun k hk' => h.2.1 k (hk.subset hk'), h.2.2.1.sublist ha,
-    fun x hx => h.2.2.2 x (ha.subset hx)⟩
-
-private theorem mem_allH_setSpace_append {sp : List (Nat × List Nat)} {k h x : Nat}
-    (hx : x ∈ allH (setSpace sp k (· ++ [h]))) : x ∈ allH sp ∨ x = h := by
-  induction sp with
-  | nil => simp [setSpace, allH] at hx
-  | cons q t iht =>
-    simp only [setSpace, List.map_cons] at hx iht
-    rw [allH_cons] at hx
-    rw [allH_cons]
-    simp only [List.mem_append] at hx ⊢
-    rcases hx with hx | hx
-    · split at hx
-      · simp only [List.mem_append, List.mem_singleton] at hx
-        rcases hx with hx | hx
-        · exact Or.inl (Or.inl hx)
-        · exact Or.inr hx
-      · exact Or.inl (Or.inl hx)
-    · rcases iht hx with h1 | h1
-      · exact Or.inl (Or.inr h1)
-      · exact Or.inr h1
-
-private theorem SInv.append {sp H n} (h : SInv sp H n) (k x : Nat) (hx : x ∉ allH sp) (hH : x ∈ H) :
-    SInv (setSpace sp k (· ++ [x])) H n := by
-  refine ⟨by rw [keys_setSpace]; exact h.1, by rw [keys_setSpace]; exact h.2.1,
-    allH_append_nodup sp k x h.1 h.2.2.1 hx, ?_⟩
-  intro y hy
-  rcases mem_allH_setSpace_append hy with hy | rfl
-  · exact h.2.2.2 y hy
-  · exact hH
-
-private theorem SInv.newKey {sp H n} (h : SInv sp H n) (br n' : Nat) (h1 : n ≤ br) (h2 : br < n') :
-    SInv (sp ++ [(br, [])]) H n' := by
-  refine ⟨?_, ?_, ?_, ?_⟩
-  · simp only [keys, List.map_append, List.map_cons, List.map_nil]
-    refine List.nodup_append.mpr ⟨h.1, by simp, ?_⟩
-    intro a ha b hb
-    simp at hb; subst hb
-    have := h.2.1 a ha; omega
-  · intro k hk
-    simp only [keys, List.map_append, List.map_cons, List.map_nil, List.mem_append,
-      List.mem_singleton] at hk
-    rcases hk with hk | rfl
-    · have := h.2.1 k hk; omega
-    · exact h2
-  · simp only [allH, List.map_append, List.flatten_append, List.map_cons, List.map_nil,
-      List.flatten_cons, List.flatten_nil, List.append_nil]
-    exact h.2.2.1
-  · intro x hx
-    simp only [allH, List.map_append, List.flatten_append, List.map_cons, List.map_nil,
-      List.flatten_cons, List.flatten_nil, List.append_nil] at hx
-    exact h.2.2.2 x hx
-
-private theorem spaceOf_mem_allH {sp : List (Nat × List Nat)} {k : Nat} {l : List Nat} {x : Nat}
-    (h : (sp.find? (·.1 = k)).map (·.2) = some l) (hx : x ∈ l) : x ∈ allH sp := by
-  induction sp with
-  | nil => simp at h
-  | cons p r ih =>
-    rw [allH_cons]
-    simp only [List.find?_cons] at h
-    split at h
-    · simp at h; subst h; exact List.mem_append_left _ hx
-    · exact List.mem_append_right _ (ih h)
-
-/-- with unique keys, erasing `e` from the space it lives in removes it from all spaces -/
-private theorem not_mem_allH_erase {sp : List (Nat × List Nat)} {k e : Nat} {l : List Nat}
-    (hk : (keys sp).Nodup) (hn : (allH sp).Nodup)
-    (h : (sp.find? (·.1 = k)).map (·.2) = some l) (he : e ∈ l) :
-    e ∉ allH (setSpace sp k (·.erase e)) := by
-  induction sp with
-  | nil => simp at h
-  | cons p r ih =>
-    simp only [keys, List.map_cons, List.nodup_cons] at hk
-    rw [allH_cons] at hn
-    have hn' := List.nodup_append.mp hn
-    simp only [setSpace, List.map_cons]
-    rw [allH_cons]
-    simp only [List.find?_cons] at h
-    split at h
-    · rename_i hpk
-      simp at hpk
-      simp at h; subst h
-      simp only [hpk, ↓reduceIte, List.mem_append, not_or]
-      constructor
-      · exact fun hm => (List.Nodup.mem_erase_iff hn'.1).mp hm |>.1 rfl
-      · intro hm
-        have hrest : List.map (fun q : Nat × List Nat => if q.1 = k then (q.1, q.2.erase e) else q) r = r := by
-          rw [← List.map_id r, List.map_map]
-          apply List.map_congr_left
-          intro q hq
-          simp only [Function.comp_def, id]
-          split
-          · rename_i hqk
-            exfalso; apply hk.1
-            simp only [List.mem_map]
-            exact ⟨q, hq, by rw [hqk, hpk]⟩
-          · rfl
-        rw [hrest] at hm
-        exact hn'.2.2 e he e hm rfl
-    · rename_i hpk
-      simp at hpk
-      simp only [hpk, ↓reduceIte, List.mem_append, not_or]
-      constructor
-      · intro hm
-        exact hn'.2.2 e hm e (spaceOf_mem_allH h he) rfl
-      · have := ih hk.2 hn'.2.1 h
-        simpa [setSpace] using this
-
-/-- handles of all entities ever created are pairwise distinct and below the generator -/
-def HInv (s : State) : Prop := (hs s).Nodup ∧ ∀ h ∈ hs s, h < s.next
-
-private theorem setEnt_hs (ents : List Ent) (h : Nat) (f : Ent → Ent) (hf : ∀ x, (f x).h = x.h) :
-    (setEnt ents h f).map (·.h) = ents.map (·.h) := by
-  induction ents with
-  | nil => rfl
-  | cons a t ih =>
-    simp only [setEnt, List.map_cons] at ih ⊢
-    rw [ih]; congr 1
-    split <;> simp [hf]
-
-private theorem map_fields_hs (ents : List Ent) (f : Ent → Ent) (hf : ∀ x, (f x).h = x.h) :
-    (ents.map f).map (·.h) = ents.map (·.h) := by
-  simp [List.map_map, Function.comp_def, hf]
-
-
-def Same (s s' : State) : Prop := hs s' = hs s ∧ s'.next = s.next
-
-private theorem Same.rfl' (s : State) : Same s s := ⟨rfl, rfl⟩
-private theorem Same.trans' {a b c : State} (h1 : Same a b) (h2 : Same b c) : Same a c :=
-  ⟨h2.1.trans h1.1, h2.2.trans h1.2⟩
-
-private theorem unlinkCore_same (s s' : State) (k e : Nat) (h : unlinkCore s k e = some s') : Same s s' := by
-  unfold unlinkCore at h
-  split at h
-  · cases h; exact Same.rfl' s
-  · split at h
-    · cases h
-    · split at h
-      · cases h
-        exact ⟨setEnt_hs _ _ _ (fun _ => rfl), rfl⟩
-      · cases h
-
-private theorem addExisting_same (s : State) (k e : Nat) : Same s (addExisting s k e).1 := by
-  unfold addExisting
-  split
-  · split
-    · exact Same.rfl' s
-    · split
-      · exact Same.rfl' s
-      · exact ⟨setEnt_hs _ _ _ (fun _ => rfl), rfl⟩
-  · exact Same.rfl' s
-
-private theorem destroyEnt_same (s : State) (e : Nat) : Same s (destroyEnt s e) :=
-  ⟨setEnt_hs _ _ _ (fun _ => rfl), rfl⟩
-
-private theorem dropContainer_same (s : State) (br : Nat) : Same s (dropContainer s br) := by
-  refine ⟨?_, rfl⟩
-  simp only [hs, dropContainer]
-  apply map_fields_hs
-  intro x; split <;> rfl
-
-private theorem renameBlock_same (s : State) (a b : Str) : Same s (renameBlock s a b).1 := by
-  unfold renameBlock
-  split
-  · exact Same.rfl' s
-  · split
-    · exact Same.rfl' s
-    · exact ⟨rfl, rfl⟩
-
-private theorem setActive_same (s : State) (n : Str) : Same s (setActive s n).1 := by
-  unfold setActive
-  split
-  · exact Same.rfl' s
-  · split
-    · exact Same.rfl' s
-    · split
-      · split
-        · exact Same.rfl' s
-        · simp only
-          exact Same.trans' (Same.trans' (renameBlock_same _ _ _) (renameBlock_same _ _ _)) (renameBlock_same _ _ _)
-      · exact Same.rfl' s
-
-def Grow (s s' : State) : Prop :=
-  s.next ≤ s'.next ∧ (hs s' = hs s ∨ ∃ h, hs s' = hs s ++ [h] ∧ s.next ≤ h ∧ h < s'.next)
-
-private theorem Same.grow {s s' : State} (h : Same s s') : Grow s s' := ⟨by rw [h.2]; exact Nat.le_refl _, Or.inl h.1⟩
-
-private theorem freshOk_one {s : State} {h seed : Nat} (hf : freshOk s [h] seed = true) : s.next ≤ h ∧ h < seed := by
-  simp [freshOk] at hf
-  omega
-
-private theorem freshOk_seed {s : State} {l : List Nat} {seed : Nat} (hf : freshOk s l seed = true) : s.next ≤ seed := by
-  simp [freshOk] at hf
-  omega
-
-private theorem newEnt_grow (s : State) (k h seed : Nat) (r : Option Str) : Grow s (newEnt s k h seed r).1 := by
-  unfold newEnt
-  split
-  · exact (Same.rfl' s).grow
-  · split
-    · rename_i hf
-      have := freshOk_one hf
-      refine ⟨by simp; omega, Or.inr ⟨h, by simp [hs], this.1, by simpa using this.2⟩⟩
-    · exact (Same.rfl' s).grow
-
-/-- what a step does to the handle history: nothing, or one fresh handle appended -/
-theorem step_grow (s : State) (op : Op) : Grow s (step s op).1 := by
-  cases op with
-  | add k h seed => exact newEnt_grow ..
-  | ins k n h seed => exact newEnt_grow ..
-  | unlink k e =>
-    simp only [step]; split
-    · rename_i h; exact (unlinkCore_same _ _ _ _ h).grow
-    · exact (Same.rfl' s).grow
-  | addex k e => exact (addExisting_same ..).grow
-  | move k1 e k2 =>
-    simp only [step]
-    split
-    · exact (Same.rfl' s).grow
-    · split
-      · exact (Same.rfl' s).grow
-      · rename_i s1 h1
-        have a := unlinkCore_same _ _ _ _ h1
-        have b := addExisting_same s1 k2 e
-        split
-        · rename_i s2 heq
-          rw [heq] at b
-          exact (Same.trans' a b).grow
-        · exact (Same.rfl' s).grow
-  | del k e =>
-    simp only [step]; split
-    · exact (Same.rfl' s).grow
-    · rename_i s1 h1
-      exact (Same.trans' (unlinkCore_same _ _ _ _ h1) (destroyEnt_same s1 e)).grow
-  | destroy e => exact (destroyEnt_same s e).grow
-  | copy e k h seed =>
-    simp only [step]; split
-    · split
-      · exact newEnt_grow ..
-      · exact (Same.rfl' s).grow
-    · exact (Same.rfl' s).grow
-  | purge =>
-    refine Same.grow ⟨?_, rfl⟩
-    simp only [step, hs]
-    exact map_fields_hs _ _ (fun _ => rfl)
-  | newBlock n br seed =>
-    simp only [step]; split
-    · exact (Same.rfl' s).grow
-    · split
-      · rename_i hf
-        exact ⟨freshOk_seed hf, Or.inl rfl⟩
-      · exact (Same.rfl' s).grow
-  | delBlock n safe =>
-    simp only [step]; split
-    · exact (Same.rfl' s).grow
-    · split
-      · exact (Same.rfl' s).grow
-      · exact (dropContainer_same ..).grow
-  | renBlock a b => exact (renameBlock_same ..).grow
-  | newLayout n br seed =>
-    simp only [step]; split
-    · exact (Same.rfl' s).grow
-    · split
-      · exact (Same.rfl' s).grow
-      · split
-        · rename_i hf
-          exact ⟨freshOk_seed hf, Or.inl rfl⟩
-        · exact (Same.rfl' s).grow
-  | delLayout n =>
-    simp only [step]; split
-    · exact (Same.rfl' s).grow
-    · split
-      · exact (Same.rfl' s).grow
-      · split
-        · exact (Same.rfl' s).grow
-        · simp only
-          refine Same.grow (Same.trans' (b := _) ?_ (dropContainer_same ..))
-          refine Same.trans' (b := _) ?_ ⟨rfl, rfl⟩
-          split
-          · split
-            · exact setActive_same ..
-            · exact Same.rfl' s
-          · exact Same.rfl' s
-  | renLayout a b =>
-    simp only [step]; split
-    · exact (Same.rfl' s).grow
-    · split
-      · exact (Same.rfl' s).grow
-      · split
-        · exact (Same.rfl' s).grow
-        · exact Same.grow ⟨rfl, rfl⟩
-  | activate n => exact (setActive_same ..).grow
-  | addLayer n seed =>
-    simp only [step]; split
-    · exact (Same.rfl' s).grow
-    · split
-      · rename_i hf
-        exact ⟨freshOk_seed hf, Or.inl rfl⟩
-      · exact (Same.rfl' s).grow
-  | delLayer n =>
-    simp only [step]; split
-    · exact Same.grow ⟨rfl, rfl⟩
-    · exact (Same.rfl' s).grow
-  | reload seed =>
-    simp only [step]; split
-    · rename_i hle
-      refine ⟨by simpa using hle, Or.inl ?_⟩
-      simp only [hs]
-      apply map_fields_hs
-      intro x; split <;> rfl
-    · exact (Same.rfl' s).grow
-
-theorem step_HInv (s : State) (op : Op) (h : HInv s) : HInv (step s op).1 := by
-  obtain ⟨hn, hb⟩ := h
-  obtain ⟨hle, hcase⟩ := step_grow s op
-  rcases hcase with heq | ⟨x, heq, hx1, hx2⟩
-  · refine ⟨by rw [heq]; exact hn, ?_⟩
-    intro y hy; rw [heq] at hy; have := hb y hy; omega
-  · refine ⟨?_, ?_⟩
-    · rw [heq]
-      refine List.nodup_append.mpr ⟨hn, by simp, ?_⟩
-      intro a ha b hb'
-      simp at hb'; subst hb'
-      have := hb a ha; omega
-    · intro y hy; rw [heq] at hy
-      simp only [List.mem_append, List.mem_singleton] at hy
-      rcases hy with hy | rfl
-      · have := hb y hy; omega
-      · exact hx2
-
-/-- every entity has one unique, never reused handle: for every history from a state satisfying the
-    invariant, all handles ever issued are pairwise distinct and below the handle generator -/
-theorem handles_never_reused (s : State) (ops : List Op) (h : HInv s) : HInv (run s ops) := by
-  induction ops generalizing s with
-  | nil => exact h
-  | cons op r ih => exact ih _ (step_HInv s op h)
-
-/-! ### the single-owner invariant -/
-
-/-- structural invariant of the entity spaces: block-record keys unique and below the generator,
-    every handle occurs at most once over ALL spaces, and only handles of created entities occur -/
-def DocInv (s : State) : Prop := HInv s ∧ SInv s.spaces (hs s) s.next
-
-/-- caller obligation documented for `BaseLayout.add_entity`: the entity is not linked anywhere -/
-def OpOk (s : State) : Op → Prop
-  | .addex _ e => e ∉ allH s.spaces
-  | _ => True
-
-private theorem erase_sub (e : Nat) : ∀ l : List Nat, (l.erase e).Sublist l := fun l => List.erase_sublist
-
-private theorem findEnt_mem {s : State} {e : Nat} {x : Ent} (h : findEnt s e = some x) : e ∈ hs s := by
-  unfold findEnt at h
-  have := List.find?_some h
-  have hm := List.mem_of_find?_eq_some h
-  simp at this
-  simp only [hs, List.mem_map]
-  exact ⟨x, hm, this⟩
-
-private theorem unlinkCore_SInv {s s' : State} {k e : Nat} (h : unlinkCore s k e = some s')
-    (hi : SInv s.spaces (hs s) s.next) : SInv s'.spaces (hs s') s'.next := by
-  have hsame := unlinkCore_same _ _ _ _ h
-  unfold unlinkCore at h
-  split at h
-  · cases h; exact hi
-  · split at h
-    · cases h
-    · split at h
-      · cases h
-        rw [hsame.1, hsame.2]
-        simp only
-        exact hi.sub (by rw [keys_setSpace]; exact List.Sublist.refl _)
-          (allH_setSpace_sublist _ _ _ (erase_sub e))
-      · cases h
-
-private theorem unlinkCore_removed {s s' : State} {k e : Nat} (h : unlinkCore s k e = some s')
-    (ha : isAlive s e = true) (hi : SInv s.spaces (hs s) s.next) : e ∉ allH s'.spaces := by
-  unfold unlinkCore at h
-  simp only [ha, Bool.not_true, Bool.false_eq_true, ↓reduceIte] at h
-  split at h
-  · cases h
-  · rename_i sp hsp
-    split at h
-    · rename_i hc
-      cases h
-      simp only
-      exact not_mem_allH_erase hi.1 hi.2.2.1 hsp (by simpa using hc)
-    · cases h
-
-private theorem addExisting_SInv (s : State) (k e : Nat) (hi : SInv s.spaces (hs s) s.next)
-    (hok : e ∉ allH s.spaces) :
-    SInv (addExisting s k e).1.spaces (hs (addExisting s k e).1) (addExisting s k e).1.next := by
-  have hsame := addExisting_same s k e
-  rw [hsame.1, hsame.2]
-  unfold addExisting
-  split
-  · rename_i x sp hx hsp
-    split
-    · exact hi
-    · split
-      · exact hi
-      · exact hi.append k e hok (findEnt_mem hx)
-  · exact hi
-
-private theorem destroyEnt_spaces (s : State) (e : Nat) : (destroyEnt s e).spaces = s.spaces := rfl
-
-private theorem renameBlock_spaces (s : State) (a b : Str) : (renameBlock s a b).1.spaces = s.spaces := by
-  unfold renameBlock; split
-  · rfl
-  · split <;> rfl
-
-private theorem setActive_spaces (s : State) (n : Str) : (setActive s n).1.spaces = s.spaces := by
-  unfold setActive
-  split
-  · rfl
-  · split
-    · rfl
-    · split
-      · split
-        · rfl
-        · simp only [renameBlock_spaces]
-      · rfl
-
-private theorem dropContainer_SInv (s : State) (br : Nat) (hi : SInv s.spaces (hs s) s.next) :
-    SInv (dropContainer s br).spaces (hs (dropContainer s br)) (dropContainer s br).next := by
-  have hsame := dropContainer_same s br
-  rw [hsame.1, hsame.2]
-  simp only [dropContainer]
-  exact hi.sub (by simp only [keys]; exact List.Sublist.map _ List.filter_sublist)
-    (allH_filter_sublist _ _)
-
-private theorem newEnt_SInv (s : State) (k h seed : Nat) (r : Option Str) (hh : HInv s)
-    (hi : SInv s.spaces (hs s) s.next) :
-    SInv (newEnt s k h seed r).1.spaces (hs (newEnt s k h seed r).1) (newEnt s k h seed r).1.next := by
-  unfold newEnt
-  split
-  · exact hi
-  · split
-    · rename_i hf
-      have hfr := freshOk_one hf
-      have hnot : h ∉ allH s.spaces := by
-        intro hm
-        have := hh.2 h (hi.2.2.2 h hm)
-        omega
-      have hi' : SInv s.spaces (hs s ++ [h]) seed :=
-        hi.mono (by omega) (fun x hx => List.mem_append_left _ hx)
-      have := hi'.append k h hnot (by simp)
-      simpa [hs] using this
-    · exact hi
-
-private theorem purge_hs (s : State) : hs (step s .purge).1 = hs s := by
-  simp only [step, hs]; exact map_fields_hs _ _ (fun _ => rfl)
-
-private theorem reload_hs (s : State) (seed : Nat) : hs (step s (.reload seed)).1 = hs s := by
-  simp only [step, hs]; split
-  · apply map_fields_hs; intro x; split <;> rfl
-  · rfl
-
-/-- one step preserves the invariant (for `add_entity` under its documented caller obligation) -/
-theorem step_Inv (s : State) (op : Op) (h : DocInv s) (hok : OpOk s op) : DocInv (step s op).1 := by
-  refine ⟨step_HInv s op h.1, ?_⟩
-  obtain ⟨hh, hi⟩ := h
-  have hg := step_grow s op
-  cases op with
-  | add k h seed => exact newEnt_SInv _ _ _ _ _ hh hi
-  | ins k n h seed => exact newEnt_SInv _ _ _ _ _ hh hi
-  | unlink k e =>
-    simp only [step]; split
-    · rename_i h1; exact unlinkCore_SInv h1 hi
-    · exact hi
-  | addex k e => exact addExisting_SInv s k e hi hok
-  | move k1 e k2 =>
-    simp only [step]
-    split
-    · exact hi
-    · rename_i ha
-      split
-      · exact hi
-      · rename_i s1 h1
-        have hi1 := unlinkCore_SInv h1 hi
-        have hrm := unlinkCore_removed h1 (by simpa using ha) hi
-        have := addExisting_SInv s1 k2 e hi1 hrm
-        split
-        · rename_i s2 heq; rw [heq] at this; exact this
-        · exact hi
-  | del k e =>
-    simp only [step]; split
-    · exact hi
-    · rename_i s1 h1
-      have hi1 := unlinkCore_SInv h1 hi
-      have hsame := destroyEnt_same s1 e
-      rw [hsame.1, hsame.2, destroyEnt_spaces]; exact hi1
-  | destroy e =>
-    simp only [step]
-    have hsame := destroyEnt_same s e
-    rw [hsame.1, hsame.2, destroyEnt_spaces]; exact hi
-  | copy e k h seed =>
-    simp only [step]; split
-    · split
-      · exact newEnt_SInv _ _ _ _ _ hh hi
-      · exact hi
-    · exact hi
-  | purge =>
-    rw [purge_hs]
-    simp only [step]
-    exact hi.sub (by simp [keys, List.map_map, Function.comp_def]) (allH_mapFilter_sublist _ _)
-  | newBlock n br seed =>
-    simp only [step]; split
-    · exact hi
-    · split
-      · rename_i hf
-        have := freshOk_one hf
-        exact hi.newKey br seed this.1 this.2
-      · exact hi
-  | delBlock n safe =>
-    simp only [step]; split
-    · exact hi
-    · split
-      · exact hi
-      · exact dropContainer_SInv s _ hi
-  | renBlock a b =>
-    simp only [step]
-    have hsame := renameBlock_same s a b
-    rw [hsame.1, hsame.2, renameBlock_spaces]; exact hi
-  | newLayout n br seed =>
-    simp only [step]; split
-    · exact hi
-    · split
-      · exact hi
-      · split
-        · rename_i hf
-          have := freshOk_one hf
-          exact hi.newKey br seed this.1 this.2
-        · exact hi
-  | delLayout n =>
-    simp only [step]; split
-    · exact hi
-    · split
-      · exact hi
-      · split
-        · exact hi
-        · simp only
-          apply dropContainer_SInv
-          simp only
-          split
-          · split
-            · rename_i other _
-              have hsame := setActive_same s other.name
-              show SInv (setActive s other.name).1.spaces (hs (setActive s other.name).1)
-                (setActive s other.name).1.next
-              rw [hsame.1, hsame.2, setActive_spaces]
-              exact hi
-            · exact hi
-          · exact hi
-  | renLayout a b =>
-    simp only [step]; split
-    · exact hi
-    · split
-      · exact hi
-      · split <;> exact hi
-  | activate n =>
-    simp only [step]
-    have hsame := setActive_same s n
-    rw [hsame.1, hsame.2, setActive_spaces]; exact hi
-  | addLayer n seed =>
-    simp only [step]; split
-    · exact hi
-    · split
-      · rename_i hf
-        exact hi.mono (freshOk_seed hf) (fun x hx => hx)
-      · exact hi
-  | delLayer n =>
-    simp only [step]; split <;> exact hi
-  | reload seed =>
-    rw [reload_hs]
-    simp only [step]; split
-    · rename_i hle
-      exact (hi.sub (by simp [keys, List.map_map, Function.comp_def]) (allH_mapFilter_sublist _ _)).mono
-        (by simpa using hle) (fun x hx => hx)
-    · exact hi
-
-/-- a history obeying the `add_entity` obligation at every step -/
-def HistOk : State → List Op → Prop
-  | _, [] => True
-  | s, op :: r => OpOk s op ∧ HistOk (step s op).1 r
-
-/-- at every step of any history: every entity is in at most one layout, at most once; handles are
-    unique and never reused -/
-theorem inv_reachable (s : State) (ops : List Op) (h : DocInv s) (hok : HistOk s ops) : DocInv (run s ops) := by
-  induction ops generalizing s with
-  | nil => exact h
-  | cons op r ih => exact ih _ (step_Inv s op h hok.1) hok.2
-
-/-! ### effect of operations on what a layout shows (refinement to the list model) -/
-
-
-/-- what iterating a layout / block yields: the live entities of its entity space, in order -/
-def content (s : State) (k : Nat) : List Nat := ((spaceOf s k).getD []).filter (isAlive s)
-
-private theorem spaceOf_setSpace (sp : List (Nat × List Nat)) (k k' : Nat) (f : List Nat → List Nat) :
-    ((setSpace sp k f).find? (·.1 = k')).map (·.2) =
-      if k' = k then ((sp.find? (·.1 = k')).map (·.2)).map f else (sp.find? (·.1 = k')).map (·.2) := by
-  induction sp with
-  | nil => simp [setSpace]
-  | cons p r ih =>
-    unfold setSpace at ih ⊢
-    simp only [List.map_cons, List.find?_cons]
-    by_cases hpk : p.1 = k <;> by_cases hpk' : p.1 = k' <;> by_cases hkk : k' = k <;>
-      simp_all
-
-private theorem find_append_old (ents : List Ent) (x : Ent) (h : Nat) (hm : h ∈ ents.map (·.h)) :
-    (ents ++ [x]).find? (·.h = h) = ents.find? (·.h = h) := by
-  rw [List.find?_append]
-  simp only [List.mem_map] at hm
-  obtain ⟨e, he, heq⟩ := hm
-  cases hf : ents.find? (·.h = h) with
-  | none =>
-    exfalso
-    have := List.find?_eq_none.mp hf e he
-    simp [heq] at this
-  | some y => simp
-
-private theorem find_append_new (ents : List Ent) (x : Ent) (hm : x.h ∉ ents.map (·.h)) :
-    (ents ++ [x]).find? (·.h = x.h) = some x := by
-  rw [List.find?_append]
-  have : ents.find? (·.h = x.h) = none := by
-    apply List.find?_eq_none.mpr
-    intro e he heq
-    apply hm
-    simp only [List.mem_map]
-    exact ⟨e, he, by simpa using heq⟩
-  simp [this]
-
-private theorem isAlive_old (s s' : State) (x : Ent) (hE : s'.ents = s.ents ++ [x]) (h : Nat) (hm : h ∈ hs s) :
-    isAlive s' h = isAlive s h := by
-  simp only [isAlive, findEnt, hE]
-  rw [find_append_old _ _ _ hm]
-
-private theorem isAlive_new (s s' : State) (x : Ent) (hE : s'.ents = s.ents ++ [x]) (hm : x.h ∉ hs s)
-    (ha : x.alive = true) : isAlive s' x.h = true := by
-  simp only [isAlive, findEnt, hE]
-  rw [find_append_new _ _ hm]
-  exact ha
-
-/-- `layout.add_line(...)`: the new entity is appended to the content of its layout and no other
-    layout changes (reference model: a layout is an ordered list, creation appends) -/
+/-- reference model "a layout is an ordered list": creation appends to that layout only -/
 theorem spec_add (s : State) (k h seed : Nat) (sp : List Nat) (hsp : spaceOf s k = some sp)
     (hf : freshOk s [h] seed = true) (hfresh : h ∉ hs s)
     (hknown : ∀ k' l, spaceOf s k' = some l → ∀ x ∈ l, x ∈ hs s) :
     (step s (.add k h seed)).2 = .ok ∧
     content (step s (.add k h seed)).1 k = content s k ++ [h] ∧
-    ∀ k', k' ≠ k → content (step s (.add k h seed)).1 k' = content s k' := by
-  obtain ⟨s', hs'⟩ : ∃ s', s' = (step s (.add k h seed)).1 := ⟨_, rfl⟩
-  have hE : s'.ents = s.ents ++ [⟨h, true, some k, true, none⟩] := by
-    simp [hs', step, newEnt, hsp, hf]
-  have hS : s'.spaces = setSpace s.spaces k (· ++ [h]) := by
-    simp [hs', step, newEnt, hsp, hf]
-  have hout : (step s (.add k h seed)).2 = .ok := by simp [step, newEnt, hsp, hf]
-  rw [← hs']
-  refine ⟨hout, ?_, ?_⟩
-  · simp only [content, spaceOf, hS, spaceOf_setSpace, ↓reduceIte]
-    unfold spaceOf at hsp
-    rw [hsp]
-    simp only [Option.map_some, Option.getD_some, List.filter_append, List.filter_cons,
-      isAlive_new s s' _ hE hfresh rfl, ↓reduceIte, List.filter_nil]
-    congr 1
-    apply List.filter_congr
-    intro x hx
-    exact isAlive_old s s' _ hE x (hknown k sp (by unfold spaceOf; exact hsp) x hx)
-  · intro k' hk'
-    simp only [content, spaceOf, hS, spaceOf_setSpace, hk', ↓reduceIte]
-    cases hl : (s.spaces.find? (·.1 = k')).map (·.2) with
-    | none => simp
-    | some l =>
-      simp only [Option.getD_some]
-      apply List.filter_congr
-      intro x hx
-      exact isAlive_old s s' _ hE x (hknown k' l (by unfold spaceOf; exact hl) x hx)
+    ∀ k', k' ≠ k → content (step s (.add k h seed)).1 k' = content s k' :=
+  Doc.spec_add s k h seed sp hsp hf hfresh hknown
 
-/-- `entitydb.purge()` / `layout.purge()` never change what a layout shows -/
-theorem spec_purge (s : State) (k : Nat) : content (step s .purge).1 k = content s k := by
-  obtain ⟨s', hs'⟩ : ∃ s', s' = (step s .purge).1 := ⟨_, rfl⟩
-  have hE : s'.ents = s.ents.map (fun x => { x with indb := x.indb && x.alive }) := by simp [hs', step]
-  have hS : s'.spaces = s.spaces.map (fun p => (p.1, p.2.filter (isAlive s))) := by simp [hs', step]
-  rw [← hs']
-  have halive : ∀ x, isAlive s' x = isAlive s x := by
-    intro x
-    simp only [isAlive, findEnt, hE, List.find?_map, Function.comp_def]
-    cases s.ents.find? (fun e => decide (e.h = x)) <;> simp
-  simp only [content, spaceOf, hS, List.find?_map, Function.comp_def]
-  cases hl : s.spaces.find? (fun p => decide (p.1 = k)) with
-  | none => simp
-  | some p =>
-    simp only [Option.map_some, Option.getD_some, List.filter_filter]
-    apply List.filter_congr
-    intro x _
-    rw [halive x]; simp
-
-private theorem isAlive_destroy (s : State) (e x : Nat) :
-    isAlive (destroyEnt s e) x = (isAlive s x && decide (x ≠ e)) := by
-  simp only [isAlive, findEnt, destroyEnt, setEnt, List.find?_map, Function.comp_def]
-  have : (fun y : Ent => decide ((if y.h = e then { y with alive := false } else y).h = x)) =
-      (fun y : Ent => decide (y.h = x)) := by
-    funext y; split <;> rfl
-  rw [this]
-  cases hf : s.ents.find? (fun y => decide (y.h = x)) with
-  | none => simp
-  | some y =>
-    have hy : y.h = x := by simpa using List.find?_some hf
-    simp only [Option.map_some]
-    by_cases hxe : x = e
-    · subst hxe; simp [hy]
-    · have : ¬ y.h = e := by rw [hy]; exact hxe
-      simp [this, hxe]
-
-/-- `entity.destroy()`: the entity disappears from what every layout shows, nothing else changes,
-    although the dead object is still stored in the entity space until the next purge -/
+/-- `entity.destroy()` removes the entity from what every layout shows and nothing else, although
+    the dead object stays in the entity space until the next purge -/
 theorem spec_destroy (s : State) (e k : Nat) :
-    content (step s (.destroy e)).1 k = (content s k).filter (· ≠ e) := by
-  simp only [step, content]
-  have : spaceOf (destroyEnt s e) k = spaceOf s k := rfl
-  rw [this, List.filter_filter]
-  apply List.filter_congr
-  intro x _
-  rw [isAlive_destroy]
-  simp [Bool.and_comm]
+    content (step s (.destroy e)).1 k = (content s k).filter (· ≠ e) := Doc.spec_destroy s e k
+
+/-- purging never changes what a layout shows -/
+theorem spec_purge (s : State) (k : Nat) : content (step s .purge).1 k = content s k :=
+  Doc.spec_purge s k
 
 /-! ### non-vacuity: the state of a fresh `ezdxf.new()` document, and a history on it -/
 
@@ -870,6 +59,9 @@ def fresh : State :=
 
 example : DocInv fresh := by
   simp [DocInv, HInv, SInv, hs, keys, allH, fresh]
+
+example : HistOk fresh [.add 23 47 48, .unlink 23 47, .addex 27 47] := by
+  simp [HistOk, OpOk, step, newEnt, unlinkCore, spaceOf, freshOk, fresh, isAlive, findEnt, setSpace, allH, setEnt]
 
 #guard (run fresh [.add 23 47 48, .add 27 48 49, .move 27 48 23, .destroy 47, .newBlock (ofString "B1") 49 52,
     .copy 48 49 52 53, .purge, .del 23 48]).spaces == [(23, []), (27, []), (49, [52])]
